@@ -193,3 +193,35 @@ def handler_reraises(handler):
         if isinstance(sub, ast.Raise):
             return True
     return False
+
+
+def as_comprehension(fn_node, expr):
+    """Normalise a "list of f(x) for x in src" expression.  Accepts a list comprehension /
+    generator / list(<those>) and a name built by `name = []` + one `for x in src: name.append(e)`
+    loop (no other statement in the loop, no other mutation of the name).  Returns
+    (element expr, loop variable name, iterated expr, has_filter) or None."""
+    e = expr
+    if isinstance(e, ast.Call) and q.call_name(e) in ("list", "tuple") and len(e.args) == 1:
+        e = e.args[0]
+    if isinstance(e, (ast.ListComp, ast.GeneratorExp)):
+        if len(e.generators) != 1 or not isinstance(e.generators[0].target, ast.Name):
+            return None
+        g = e.generators[0]
+        return e.elt, g.target.id, g.iter, bool(g.ifs)
+    if isinstance(e, ast.Name):
+        inits, loops, other = [], [], []
+        for n in q.scope_nodes(fn_node):
+            if isinstance(n, ast.Assign) and any(isinstance(t, ast.Name) and t.id == e.id for t in n.targets):
+                inits.append(n)
+            if isinstance(n, ast.For):
+                apps = [c for c in q.calls(n) if q.call_name(c) == e.id + ".append"]
+                if apps:
+                    loops.append((n, apps))
+            if isinstance(n, ast.Call) and q.attr_call(n)[1] in ("extend", "insert", "pop", "remove", "clear", "sort", "reverse") and q.dotted(q.attr_call(n)[0]) == e.id:
+                other.append(n)
+        if len(inits) == 1 and isinstance(inits[0].value, ast.List) and not inits[0].value.elts and len(loops) == 1 and not other:
+            lp, apps = loops[0]
+            if len(apps) == 1 and len(lp.body) == 1 and isinstance(lp.body[0], ast.Expr) and lp.body[0].value is apps[0] and not lp.orelse \
+                    and isinstance(lp.target, ast.Name) and len(apps[0].args) == 1:
+                return apps[0].args[0], lp.target.id, lp.iter, False
+    return None
